@@ -4,6 +4,18 @@ import json, os
 VERIF = os.path.dirname(os.path.dirname(os.path.abspath(__file__)))
 
 CLAIMS = {
+ "C05": {
+  "text": "Bounded model checking of the real ScalarFunction::execute entry points for AND/OR (2-input BinaryExecutor path; 3-input UniformExecutor path in thorough), NOT, IS [NOT] NULL/TRUE/FALSE, the six comparison operators and IS [NOT] DISTINCT FROM on integer columns: for every value of the operands (full width, symbolic) and every NULL pattern of a one-row batch (each pattern its own harness) the output row equals the Kleene / SQL definition. Known finding F8 (NULL AND false, NULL OR true) is isolated in its own harnesses.",
+  "note": "Outside: float NaN comparison semantics, strings, date/time, CASE, overload resolution, multi-row batches and dictionary/constant input formats (thorough adds some). NULL input rows use the AllInvalid validity representation (bitmap inputs to the binary executor exceed 14 GB in CBMC).",
+  "design": "§3 C05"},
+ "C12": {
+  "text": "Bounded model checking of Add/Sub/Mul/Div/Rem/Negate::execute for every integer width through the real executor: in the representable region the output equals the exact mathematical result (oracle: std checked_*); in the unrepresentable region (overflow, zero divisor) the statement must return an error. Integer->decimal and decimal->decimal rescaling exactness/precision (shared with C13). The unrepresentable region fails today for every operator (known findings F1/F2: raw operators panic or wrap) and is kept in separate harnesses so the exact region stays a live regression check.",
+  "note": "Bounds: one-row arrays; full-width operands except div/rem exact for >=32-bit (|a|,|b| < 2^15) and mul err for >=64-bit (|b| < 2^8), stated in evidence. Outside: SUM/AVG states (C07), decimal arithmetic result-type rules (C18), float arithmetic, abs/round/ceil/floor, gcd/lcm/factorial.",
+  "design": "§3 C12"},
+ "C13": {
+  "text": "Bounded model checking of the real cast kernels PrimToPrim (integer->integer all pairs in thorough, float->integer), IntToDecimal and DecimalToDecimal through CastFunction::{bind,cast}: representable => exact; otherwise error (CAST) or NULL (TRY_CAST); decimal results never exceed the target precision; downscaling rounds half away from zero (checked with a multiplication-only characterisation). Found and fixed: 10^scale computed in i32 (two casts), validate_precision overflow on MIN, missing precision check in decimal->decimal.",
+  "note": "Stub (stated): CastErrorState::set_error is replaced by a flag-recording stub in the array-level harnesses because dropping a possibly-initialised DbError does not terminate in CBMC; the real set_error/into_result pair is decided by c13_cast_error_state. Decimal (p,s) are concrete per harness. Outside: text parsing/formatting (std dec2flt / fmt), float->float, dates/intervals.",
+  "design": "§3 C13"},
  "C08": {
   "text": "Bounded model checking (Kani/CBMC) of the real sort-key encoders: for every pair of values of every sortable scalar type (full bit width, symbolic) memcmp order of the encoded keys equals the declared order (numeric, NaN largest, false<true, interval lexicographic), DESC inversion reverses it exactly, NULL bytes dominate per NULLS FIRST/LAST, and the 12-byte string prefix key never contradicts byte-wise order (strings <= 14 bytes). A solver verdict over all values, which the 2^16-value sampling of the tests cannot give for 32/64/128-bit keys.",
   "note": "Kani 0.68 / CBMC 6.11 / cadical trusted. Outside the claim: partial_sort, binary_merge, merge_queue block/run structures, heap tie-break comparison, planner. Bounds: loop unwinding asserted (unwind <= 18).",
